@@ -1,4 +1,5 @@
-/* libFuzzer target for C16 (with C09/C10 side checks): bytes are decoded into an op list over one heap String;
+/* libFuzzer target for C16 (with C09/C10 side checks): bytes are decoded into an op list over one heap String
+ * (assign, concat, append, resize incl. far growth, rem, mem, cmp/eq, print_to with %s %li %% and with %$ %c, copy-and-continue);
  * the oracle is a plain C buffer driven with libc (strcat, strstr, memmove, strcmp, strlen) and an independent
  * MurmurHash64A.  After every op c_str/len/hash/cmp/eq/mem must agree with the model.  Traps on a violation. */
 #include "Cello.h"
@@ -60,11 +61,13 @@ int LLVMFuzzerTestOneInput(const uint8_t* data, size_t size) {
   size_t il = u8() % 24;
   for (size_t i = 0; i < il; i++) { unsigned c = u8(); model[i] = (char)(c is 0 ? 'm' : c); }
   model[il] = 0;
-  var s = new_raw(String, $S(model));
+  var s;
+  if (il is 0 and (u8() & 1)) { s = new_raw(String); }        /* new(String) without arguments is the empty String */
+  else { s = new_raw(String, $S(model)); }
   int nops = 1 + u8() % 24;
   char opd[CAP];
   for (int oi = 0; oi < nops; oi++) {
-    unsigned op = u8() % 9;
+    unsigned op = u8() % 12;
     size_t ml = strlen(model);
     var volatile exc = NULL;
     if (op is 0) { size_t n = operand(opd, 400); try { assign(s, $S(opd)); } catch (e) { exc = e; } memcpy(model, opd, n + 1); }
@@ -109,6 +112,36 @@ int LLVMFuzzerTestOneInput(const uint8_t* data, size_t size) {
         if (not exc and (size_t)r isnt pos + (size_t)tl) { fail("print_to returned position", model, text); }
       }
       (void)n;
+    }
+    else if (op is 9) {   /* %$ of a String operand (show: one small write per character, C escapes) followed by two %c */
+      size_t pos = ml ? u8() % (ml + 1) : 0; size_t n = operand(opd, 200); unsigned ch = 1 + u8() % 255;
+      char text[1024]; size_t tl = 0;
+      text[tl++] = '"';
+      for (size_t i = 0; i < n; i++) {
+        const char* e = NULL;
+        switch (opd[i]) {
+          case '\a': e = "\\a"; break; case '\b': e = "\\b"; break; case '\f': e = "\\f"; break; case '\n': e = "\\n"; break;
+          case '\r': e = "\\r"; break; case '\t': e = "\\t"; break; case '\v': e = "\\v"; break; case '\\': e = "\\\\"; break;
+          case '\'': e = "\\'"; break; case '"': e = "\\\""; break; case '?': e = "\\?"; break;
+        }
+        if (e) { text[tl++] = e[0]; text[tl++] = e[1]; } else { text[tl++] = opd[i]; }
+      }
+      text[tl++] = '"'; text[tl++] = (char)ch; text[tl++] = (char)ch; text[tl] = 0;
+      int r = -1;
+      if (pos + tl < CAP - 1) {
+        try { r = print_to(s, (int)pos, "%$%c%c", $S(opd), $I((int64_t)ch), $I((int64_t)ch - 256)); } catch (e) { exc = e; }
+        memcpy(model + pos, text, tl + 1);
+        if (not exc and (size_t)r isnt pos + tl) { fail("print_to %$ returned position", model, text); }
+      }
+    }
+    else if (op is 10) {  /* go on with a copy; the original is deleted (no shared buffer) */
+      var volatile c = NULL;
+      try { c = copy(s); } catch (e) { exc = e; }
+      if (c) { del_raw(s); s = c; }
+    }
+    else if (op is 11) {  /* grow far beyond the value, the value stays */
+      size_t n = ml + 1 + (size_t)(u8() % 5) * 251 + u8();
+      try { resize(s, n); } catch (e) { exc = e; }
     }
     else { /* hash of a Blob-like plain buffer through hash_data at a chosen alignment */
       size_t n = u8() % 40; unsigned off = u8() % 8;
